@@ -420,7 +420,7 @@ def wrapper_stream(ctx, DATA):
         W = [("cs", ChangeScore(c0), lambda: ChangeScore(costK())), ("cs", ChangeScore(c0), lambda: ChangeScore(costK())),
              ("las", LocalAnomalyScore(c0), lambda: LocalAnomalyScore(costK())),
              ("sav", Saving(base), lambda: Saving(costK(0.5) if costK is L2Cost else costK((0.5, 2.0))))]
-        det = PELT(cost=c0, min_segment_length=2)
+        det = PELT(cost=c0, min_segment_length=3)
         hist = []
         for step in range(rng.randint(4, 14)):
             k = rng.randrange(8)
